@@ -93,8 +93,19 @@ def run(ctx):
                 ev = vlib.read_ndjson(tpx)
                 for b in v["bad"]:
                     evs = [e for e in ev[max(0, b["line"] - 40):b["line"]] if e.get("sc") == b["sc"]]
+                    # the rest of the scenario (the validator skips it after the first rejection): does the driver observe
+                    # there, directly, that a recycled connection object was in use?
+                    rest = []
+                    for e in ev[b["line"]:b["line"] + 400]:
+                        if e.get("sc") != b["sc"]:
+                            break
+                        rest.append(e)
+                    later = sorted(set(e["op"] for e in rest if e.get("op") in ("misdelivery", "misdirection", "orphancomplete")))
                     sig = {"assembler": b["asm"], "reason": b["reason"], "op": b["op"], "phase": what}
                     replay_extra = {}
+                    if later and b["reason"] not in ("data-race", "panic", "deadlock-or-stall", "concurrent-callbacks-on-one-stream"):
+                        sig["recycled_object_observed_later_in_scenario"] = True
+                        replay_extra["later_evidence"] = later
                     if what == "controlled":
                         # PoolConc.tla's prediction for this schedule (informative: the order in which a real FlushAll visits
                         # its snapshot is Go's map order, which the schedule does not fix, so the replay may resolve the
